@@ -1,5 +1,13 @@
-use vkit::Check;
+mod alloc;
+mod c06;
+mod drivers;
+mod mutate;
+mod seeds;
+use vkit::{Check, Level};
+
+#[global_allocator]
+static GLOBAL: alloc::Tracking = alloc::Tracking;
+
 fn main() {
-    let checks: &[Check] = &[];
-    vkit::main(checks);
+    vkit::main(&[Check { id: "C06", level: Level::Exploration, run: c06::run }]);
 }
